@@ -21,4 +21,12 @@ CLAIMS = {
         "note": "Not decided: what a recording store double observes over arbitrary histories (version monotonicity, cadence arithmetic over time) - "
                 "these follow by a pencil argument from the decided clauses but no execution is made. Assumes A1 (patch hooks resolve to defaults).",
     },
+    "C15": {
+        "technique": "static analysis: lexical lockset, effect query for wall-clock reads, post-dominance of eviction loops over growing inserts with callee summaries, paired-accounting path checks, sorted-iteration shape",
+        "text": "Decides per container and per wrapper method, on all CFG paths: wrapped cache only touched under the lock; TTL reads only the injected clock; "
+                "each growing insert is followed (or preceded, DedupeRing) by an eviction loop bounded by exactly the capacity that removes from the LRU end; "
+                "LRUBytes pairs _map mutations with its byte total, clear() resets all fields, zero capacities short-circuit; merge iterates workers and keys sorted by the supplied keys, first wins.",
+        "note": "Not decided: the bound/accounting/eviction-order invariants after every prefix of every operation sequence, exact byte totals, and thread interleavings - "
+                "these need model-based exploration, a different technique. The rules are necessary structural conditions of those invariants.",
+    },
 }
